@@ -530,6 +530,20 @@ func banners() {
 			}
 		}
 	}
+	// ... and columns taller than 2^16 rows (16-bit row counters, per-row tables)
+	for ti, typ := range img.Types {
+		for hi, h := range []int{65537, 70001} {
+			helper := []string{"NRGBA", "RGBA", "RGBA64"}[(ti+hi)%3]
+			s := img.Spec{Type: typ, Ratio: (ti + hi) % 6, Rect: [4]int{1, 0, 2 + hi, h}, Parent: [4]int{1, 0, 2 + hi, h}, Fill: "prng", Seed: ev.Seed() + uint64(n), PalN: 255}
+			c := Case{Src: s, Helper: helper, Par: []int{1, 3, 16, 257, 65536}[(ti+2*hi)%5]}
+			n++
+			kd, wh, _ := check(c)
+			if kd != "" && !bad[helper+kd] {
+				bad[helper+kd] = true
+				ev.Violation("convert", c.Helper+"/"+kd, wh, c)
+			}
+		}
+	}
 	ev.Eval(n)
 	ev.NTAdd(n)
 	ev.Class("banners", n)
